@@ -125,6 +125,35 @@ func lockBalanceOne(f *Flow, info *types.Info, m *types.Var) string {
 		}
 	}
 	entry := []Pt{f.Entry()}
+	// `if m.TryLock() { … }`: the lock is held exactly on the edge on which the call answered true
+	isTry := func(atom ast.Expr) bool {
+		call, ok := ast.Unparen(atom).(*ast.CallExpr)
+		return ok && methodName(call) == "TryLock" && fieldOf(info, callRecv(call)) == m
+	}
+	tryTaken := f.AvoidImplying(func(atom ast.Expr) (bool, bool) {
+		if isTry(atom) {
+			return true, true
+		}
+		return false, false
+	})
+	nTry := 0
+	for _, b := range f.G.Blocks {
+		cond, isCase := f.Cond(b)
+		if cond == nil || isCase || len(b.Succs) != 2 {
+			continue
+		}
+		for si := 0; si < 2; si++ {
+			if !tryTaken(b, si) {
+				continue
+			}
+			nTry++
+			start := Pt{b.Succs[si], 0}
+			released := orPt(isUnlock, isDeferUnlock)
+			if path, found := f.Reach(Query{From: []Pt{start}, Inclusive: true, Target: f.IsNormalExit, Avoid: released}); found {
+				return "the function can return with " + objName(m) + " still locked after a successful TryLock: " + f.Describe(path)
+			}
+		}
+	}
 	// held-on-exit
 	for _, l := range locks {
 		released := orPt(isUnlock, isDeferUnlock)
@@ -143,7 +172,7 @@ func lockBalanceOne(f *Flow, info *types.Info, m *types.Var) string {
 	}
 	// unlock-unheld
 	for _, u := range append(append([]Pt{}, unlocks...), dunlocks...) {
-		if path, found := f.Reach(Query{From: entry, Inclusive: true, Target: isPt([]Pt{u}), Avoid: isLock}); found {
+		if path, found := f.Reach(Query{From: entry, Inclusive: true, Target: isPt([]Pt{u}), Avoid: isLock, AvoidEdge: tryTaken}); found {
 			deferred := isDeferUnlock(u)
 			if deferred {
 				// `defer m.Unlock()` before `m.Lock()`: fine if the Lock follows on every path to an exit
@@ -155,7 +184,7 @@ func lockBalanceOne(f *Flow, info *types.Info, m *types.Var) string {
 		}
 	}
 	for _, u := range unlocks {
-		if path, found := f.Reach(Query{From: []Pt{u}, Target: isUnlock, Avoid: isLock}); found {
+		if path, found := f.Reach(Query{From: []Pt{u}, Target: isUnlock, Avoid: isLock, AvoidEdge: tryTaken}); found {
 			return objName(m) + " can be unlocked twice in a row: " + f.Describe(path)
 		}
 		if len(dunlocks) > 0 {
@@ -169,7 +198,7 @@ func lockBalanceOne(f *Flow, info *types.Info, m *types.Var) string {
 			}
 		}
 	}
-	if len(locks) == 0 && len(unlocks)+len(dunlocks) > 0 {
+	if len(locks) == 0 && nTry == 0 && len(unlocks)+len(dunlocks) > 0 {
 		return objName(m) + " is unlocked here but never locked"
 	}
 	return ""
